@@ -110,7 +110,7 @@ Definition resolve (st : state) (f : string) : option callee :=
 Definition callee_matches (c : callee) (f : string) : bool :=
   match c with
   | CB b => match builtin_of f with Some b' => bi_eqb b b' | None => false end
-  | CD g _ => String.eqb g f
+  | CD g _ => String.eqb g f && match builtin_of f with None => true | Some _ => false end
   end.
 (* the function object stored in the slot of list #id whose head is f, if any.  A Go function object keeps
    its own name; the head symbol of the replaced list is gone.  With unique ids (every run checks this)
